@@ -25,8 +25,10 @@ WRITERS = [("str(XMLWriter)", "string"), ("ODMLWriter.to_string", "string"),
            ("XMLWriter.write_file", "file"), ("ODMLWriter.write_file", "file"), ("odml.save", "file"),
            ("XMLWriter.write_file:local_style", "styled"), ("XMLWriter.write_file:custom_template", "styled"),
            ("odml.save:local_style", "styled")]
-READERS = {"string": ["XMLReader.from_string:strict", "XMLReader.from_string:lenient", "ODMLReader.from_string"],
-           "file": ["XMLReader.from_file:strict", "XMLReader.from_file:lenient", "ODMLReader.from_file", "odml.load"],
+READERS = {"string": ["XMLReader.from_string:strict", "XMLReader.from_string:lenient", "ODMLReader.from_string",
+                      "XMLReader.from_string:strict:reader-used-twice", "XMLReader.from_string:lenient:reader-used-twice"],
+           "file": ["XMLReader.from_file:strict", "XMLReader.from_file:lenient", "ODMLReader.from_file", "odml.load",
+                    "XMLReader.from_file-then-from_string:strict:reader-used-twice"],
            "styled": ["odml.load", "XMLReader.from_file:lenient"]}
 
 
@@ -59,6 +61,17 @@ def read(reader, text, path):
     import odml
     from odml.tools.xmlparser import XMLReader
     from odml.tools.odmlparser import ODMLReader
+    if reader.endswith(":reader-used-twice"):
+        # one reader object asked twice (the same text again, as after an edit-save-load cycle): the second answer and
+        # the warnings it added are judged
+        r = XMLReader(ignore_errors=":lenient" in reader, show_warnings=False)
+        if "from_file" in reader:
+            r.from_file(path)
+        else:
+            r.from_string(text)
+        n = len(r.warnings)
+        d = r.from_string(text)
+        return d, list(r.warnings)[n:]
     if reader.startswith("XMLReader"):
         r = XMLReader(ignore_errors=reader.endswith("lenient"), show_warnings=False)
         d = r.from_string(text) if "from_string" in reader else r.from_file(path)
@@ -174,7 +187,7 @@ def _run(case, scratch):
             if got != want:
                 df = snapshot.diff(want, got)
                 fail("loaded-document-differs", entry, snapshot.short(df), field=rt.field_of(df[0]))
-            if reader.endswith(":strict") and warns:
+            if ":strict" in reader and warns:
                 fail("strict-reader-warns-on-written-file", entry, warns[:2])
         outcomes.add("round-trip")
     # foreign emitter
